@@ -315,11 +315,21 @@ func (ww *conversionVisitor) visitOneofNode(node *sourcewalk.OneofNode) {
 				return nil
 			}
 
+			if _, isArray := node.Field.Schema.(*schema_j5pb.Field_Array); isArray {
+				// protobuf does not allow a repeated field in a oneof
+				ww.addErrorf(node.Source, "option %s: an array cannot be an option of a oneof", schema.Name)
+				return nil
+			}
+
 			propertyDesc, err := buildProperty(ww, node)
 			if err != nil {
 				ww.addError(node.Source, err)
 				return nil
 			}
+			// Every option of a oneof is optional already. proto3_optional would
+			// ask for a synthetic oneof of its own, which a member of the
+			// wrapper's oneof cannot have.
+			propertyDesc.Proto3Optional = nil
 			if propertyDesc.GetName() == "type" {
 				// the proto oneof which holds the options is named 'type': the
 				// message would define the symbol twice (a link error in the generated file)
